@@ -597,6 +597,21 @@ func c08b(c *core.Ctx, oe *orderEngine) {
 					}
 				}
 			}
+			// a file that is replaced atomically (new content written and synced elsewhere, then renamed over) cannot be torn: then the
+			// checksum is not what protects the reader, and a constant/unverified field is not a defect
+			atomic := false
+			if h.name == "contextHead" {
+				fl := c.Fn(st + ".RunContext.flush")
+				rn := core.CallsIn(fl, c.StdFunc("os", "Rename"))
+				if len(rn) == 1 && len(core.CallsIn(fl, c.StdFunc("os", "File.Write"))) == 0 {
+					a := rn[0].Common().Args
+					atomic = core.SliceHasField(core.Slice(a[1]), c.FieldVar(st+".RunContext", "Path")) && !core.SliceHasField(core.Slice(a[0]), c.FieldVar(st+".RunContext", "Path")) || core.SliceHasField(core.Slice(a[1]), c.FieldVar(st+".RunContext", "Path")) && a[0] != a[1]
+				}
+			}
+			if atomic {
+				c.Check(h.name+":replaced-atomically", "atomic-replace", true, h.loader.Pos(), "%s's file is never rewritten in place: the writer renames a fully written and synced new file over it (shape checked in C08.1), so a reader sees the old or the new content", h.name)
+				continue
+			}
 			c.Check(h.name+".Crc:written-from-payload", "checksum-written", okA && n >= 1, h.loader.Pos(), "%s.Crc is stored from CheckSum(payload) at each of its %d writer(s), not from a constant", h.name, n)
 			// (b) the loader compares it: with the accepting edge of the comparison removed, no exit that hands out a record is reachable
 			okB := false
